@@ -75,7 +75,7 @@ def vacuity(agg):
 EXPECTED_PROBES = ("chain_prefix_default_none", "judged_after_malformed", "judged_after_torn", "judged_after_wrong_prefix",
                    "judged_after_dangling", "judged_after_unsupported", "judged_after_io_error", "non_ascii_prefix",
                    "comment_in_list", "context_calibrator_doc", "via_path", "via_str", "via_fileobj", "via_load_xml",
-                   "use_earlier_after_other_ns", "path_reused_for_other_content")
+                   "use_earlier_after_other_ns", "path_reused_for_other_content", "sibling_document")
 
 _packets = factory.import_library()
 import space_packet_parser  # noqa: E402
@@ -170,7 +170,14 @@ def run(ch, render=False):
     out = Outcome()
     w = World(ch, max_steps=10_000)
     n_docs = 1 + ch.draw(3, "n_docs")
-    docs = [xf.draw_doc(ch, tag=f"D{i}") for i in range(n_docs)]
+    docs = []
+    for i in range(n_docs):
+        if docs and ch.chance(1, 3, "sibling"):
+            # a revision of an earlier document of this history: same name, header and names, one thing differs
+            docs.append(xf.sibling(docs[ch.draw(len(docs), "sibling_of")], ch))
+            w.probe("sibling_document")
+        else:
+            docs.append(xf.draw_doc(ch, tag=f"D{i}"))
     pkts = [xf.probe_packets(d) for d in docs]
     canon = [xf.render(d, xf.CANONICAL) for d in docs]
     for d in docs:
@@ -216,7 +223,8 @@ def run(ch, render=False):
     for i in range(n_docs):
         res = baseline_in_pristine_child(canon[i], pkts[i])
         base.append(res)
-        w.ev("baseline", "computed", i, res[0], zlib.crc32(repr(res[1]).encode()))
+        # (only the fingerprint of a loadable baseline goes into the event log: an error text may contain addresses)
+        w.ev("baseline", "computed", i, res[0], zlib.crc32(repr(res[1]).encode()) if res[0] == "ok" else res[1].split(":")[0])
     # a document whose canonical rendering does not load as the first load has no definition to compare with; the
     # only thing the property then says is that it must not load under any other spelling or history either
     unloadable = [b[0] != "ok" for b in base]
@@ -366,7 +374,10 @@ def run(ch, render=False):
                 else:
                     w.ev("proc", op)
                     trace.append(f"{opi}: construct empty XtcePacketDefinition()")
-                    XtcePacketDefinition()
+                    try:
+                        XtcePacketDefinition()
+                    except Exception as ex:
+                        trace[-1] += f" -> {type(ex).__name__}"
     finally:
         shutil.rmtree(tmpdir, ignore_errors=True)
 
